@@ -243,6 +243,29 @@ Proof.
   rewrite Bool.andb_true_r. apply N.ltb_lt. apply N.mod_lt. discriminate.
 Qed.
 
+Lemma pow2_split a b c : b + c <= a -> 2 ^ a = 2 ^ (a - b - c) * 2 ^ c * 2 ^ b.
+Proof. intros H. rewrite <- !N.pow_add_r. f_equal. lia. Qed.
+Lemma blk_q_small A W T q F L : (q * W + F) * T + L < A * W * T -> q < A.
+Proof.
+  intros H. destruct (N.lt_ge_cases q A) as [|G]; [assumption|exfalso].
+  assert (A * W * T <= q * W * T) by (apply N.mul_le_mono_r, N.mul_le_mono_r, G). nia.
+Qed.
+Lemma blk_fits A W T q V L : q < A -> V < W -> L < T -> (q * W + V) * T + L < A * W * T.
+Proof.
+  intros Hq HV HL.
+  assert ((q * W + V) * T + L < (q * W + V + 1) * T) by nia.
+  assert ((q * W + V + 1) * T <= (q + 1) * W * T) by (apply N.mul_le_mono_r; nia).
+  assert ((q + 1) * W * T <= A * W * T) by (apply N.mul_le_mono_r, N.mul_le_mono_r; lia). lia.
+Qed.
+Lemma blk_low L T S U : L < T -> S < U -> L * U + S < T * U.
+Proof. intros. nia. Qed.
+
+Lemma lane_write_blen b r v : byte_hi r <= blen b -> blen (lane_write b r v) = blen b.
+Proof.
+  intros H. unfold lane_write, blen in *. rewrite !app_length, be_bytes_len, firstn_length, skipn_length.
+  assert (byte_lo r <= byte_hi r) by (unfold byte_lo, byte_hi, r_end, r_start; lia). lia.
+Qed.
+
 Set Default Timeout 40.
 (** the big-endian value of the buffer after a lane write: the field is replaced, every other
     bit stays *)
@@ -259,6 +282,10 @@ Proof.
   assert (Hlo : byte_lo r <= byte_hi r) by (unfold byte_lo, byte_hi, r_end, r_start; lia).
   assert (He : r_end r <= byte_hi r * 8) by (unfold byte_hi; lia).
   assert (Hs : byte_lo r * 8 <= r_start r) by (unfold byte_lo; lia).
+  assert (Hk : (byte_hi r * 8 - r_end r) + r_width r <= 8 * (byte_hi r - byte_lo r))
+    by (unfold r_end, r_width, r_start in *; lia).
+  assert (Es : s = (byte_hi r * 8 - r_end r) + 8 * (blen b - byte_hi r)) by (unfold s; lia).
+  pose proof (lane_write_blen b r v Hhi) as Hlen.
   pose proof (split3 b _ _ Hlo Hhi) as S3.
   set (p := firstn (N.to_nat (byte_lo r)) b) in *. set (m := sub b (byte_lo r) (byte_hi r)) in *.
   set (sf := skipn (N.to_nat (byte_hi r)) b) in *.
@@ -276,7 +303,7 @@ Proof.
   { rewrite <- (lane_read_is_bf_get b r Hok Hhi). unfold lane_read. fold m. fold sh.
     rewrite N.land_ones, N.shiftr_div_pow2. exact EF. }
   (* q is small: the lane has k bytes *)
-  assert (Hk : sh + w <= 8 * k) by (unfold sh, w, k, r_end, r_width, r_start in *; lia).
+  fold sh in Hk. fold k in Hk. change (r_width r) with w in Hk.
   (* new lane value *)
   unfold lane_write. fold m. fold sh. fold p. fold sf. fold k.
   change (r_width r) with w.
@@ -284,28 +311,72 @@ Proof.
   set (V := v mod 2 ^ w). assert (HV : V < 2 ^ w) by (apply N.mod_lt, pow2_nz).
   set (nv := (q * 2 ^ w + V) * 2 ^ sh + L0).
   (* nv fits k bytes *)
-  assert (Hq : q * 2 ^ (w + sh) < 2 ^ (8 * k) -> nv < 256 ^ k).
-  { intros Hq. unfold nv. rewrite pow256. rewrite N.pow_add_r in Hq.
-    assert (E8 : 2 ^ (8 * k) = 2 ^ (8 * k - sh - w) * 2 ^ w * 2 ^ sh) by (rewrite <- !N.pow_add_r; f_equal; lia).
-    rewrite E8 in *. set (A := 2 ^ (8 * k - sh - w)) in *. set (W := 2 ^ w) in *. set (T := 2 ^ sh) in *.
-    assert (q < A) by nia. nia. }
+  pose proof (pow2_split (8 * k) sh w Hk) as E8.
   assert (Hnv : nv < 256 ^ k).
-  { apply Hq. rewrite pow256 in Bm. rewrite EM in Bm. rewrite N.pow_add_r.
-    set (W := 2 ^ w) in *. set (T := 2 ^ sh) in *. nia. }
+  { rewrite pow256 in Bm |- *. rewrite E8 in Bm |- *. rewrite EM in Bm. unfold nv.
+    apply blk_fits; [|exact HV|exact HL0]. eapply blk_q_small. exact Bm. }
   assert (Enew : be_val 0 (be_bytes (N.to_nat k) nv) = nv).
   { rewrite be_val_be_bytes, N2Nat.id. apply N.mod_small. exact Hnv. }
   exists (be_val 0 p * 2 ^ (8 * k - sh - w) + q), (L0 * 2 ^ (8 * (blen b - byte_hi r)) + be_val 0 sf).
-  assert (Es : s = sh + 8 * (blen b - byte_hi r)) by (unfold s, sh; lia).
-  assert (E8 : 2 ^ (8 * k) = 2 ^ (8 * k - sh - w) * 2 ^ w * 2 ^ sh) by (rewrite <- !N.pow_add_r; f_equal; lia).
+  fold sh in Es.
   rewrite pow256 in Bsf.
   set (U := 2 ^ (8 * (blen b - byte_hi r))) in *.
   assert (E2s : 2 ^ s = 2 ^ sh * U) by (rewrite Es, N.pow_add_r; reflexivity).
   refine (conj _ (conj _ (conj _ (conj _ _)))).
-  - rewrite E2s. set (T := 2 ^ sh) in *. nia.
+  - rewrite E2s. apply blk_low; assumption.
   - rewrite S3 at 1. rewrite !be_val_app, Lsf, app_length, Nat2N.inj_add, Lsf, Lm, N.pow_add_r, !pow256.
     fold U. rewrite EM, E8, E2s, <- EFb. ring.
   - rewrite !be_val_app, Enew, Lsf, app_length, be_bytes_len, Nat2N.inj_add, Lsf, N2Nat.id, N.pow_add_r, !pow256.
     fold U. unfold nv. rewrite E8, E2s. ring.
   - rewrite !bytes_ok_app, Okp, Oksf, bytes_ok_be_bytes. reflexivity.
-  - unfold blen. rewrite !app_length, be_bytes_len. unfold p, sf. rewrite firstn_length, skipn_length. unfold blen, k in *. lia.
+  - unfold blen. rewrite !app_length, be_bytes_len. unfold p, sf. rewrite firstn_length, skipn_length.
+    clear - Hhi Hlo. unfold k, blen in *. lia.
+Qed.
+
+Lemma field_same H V L s w : L < 2 ^ s -> V < 2 ^ w -> (((H * 2 ^ w + V) * 2 ^ s + L) / 2 ^ s) mod 2 ^ w = V.
+Proof.
+  intros HL HV. rewrite N.div_add_l by apply pow2_nz. rewrite (N.div_small L) by exact HL. rewrite N.add_0_r.
+  rewrite N.add_comm, N.mod_add by apply pow2_nz. apply N.mod_small. exact HV.
+Qed.
+Lemma field_low X L s c w2 : L < 2 ^ s -> c + w2 <= s -> ((X * 2 ^ s + L) / 2 ^ c) mod 2 ^ w2 = (L / 2 ^ c) mod 2 ^ w2.
+Proof.
+  intros HL Hc. rewrite <- (field_of_mod (X * 2 ^ s + L) s c w2 Hc).
+  replace ((X * 2 ^ s + L) mod 2 ^ s) with L; [reflexivity|].
+  rewrite N.add_comm, N.mod_add by apply pow2_nz. symmetry. apply N.mod_small. exact HL.
+Qed.
+Lemma field_high H V L s w c : L < 2 ^ s -> V < 2 ^ w -> s + w <= c ->
+  ((H * 2 ^ w + V) * 2 ^ s + L) / 2 ^ c = H / 2 ^ (c - s - w).
+Proof.
+  intros HL HV Hc. replace c with (s + (w + (c - s - w))) at 1 by lia.
+  rewrite N.pow_add_r, <- N.div_div by apply pow2_nz. rewrite N.pow_add_r, <- N.div_div by apply pow2_nz.
+  rewrite N.div_add_l by apply pow2_nz. rewrite (N.div_small L) by exact HL. rewrite N.add_0_r.
+  rewrite N.div_add_l by apply pow2_nz. rewrite (N.div_small V) by exact HV. rewrite N.add_0_r. reflexivity.
+Qed.
+
+(** reading back the field just written gives the value, truncated to the field width *)
+Lemma read_write_same_lemma b r v : bytes_ok b = true -> byte_hi r <= blen b ->
+  lane_read (lane_write b r v) r = v mod 2 ^ r_width r.
+Proof.
+  intros Hok Hhi. destruct (lane_write_value b r v Hok Hhi) as (H & L & HL & _ & EB' & Ok' & Len').
+  rewrite lane_read_is_bf_get by (try rewrite Len'; assumption).
+  unfold bf_get. rewrite Len', EB'. apply field_same; [exact HL|apply N.mod_lt, pow2_nz].
+Qed.
+
+(** a field whose bits do not overlap the written range is unchanged, also when it shares
+    bytes with it *)
+Lemma read_write_disjoint_lemma b r v r2 : bytes_ok b = true -> byte_hi r <= blen b -> byte_hi r2 <= blen b ->
+  rng_disjoint r r2 = true -> lane_read (lane_write b r v) r2 = lane_read b r2.
+Proof.
+  intros Hok Hhi Hhi2 Hd. destruct (lane_write_value b r v Hok Hhi) as (H & L & HL & EB & EB' & Ok' & Len').
+  rewrite !lane_read_is_bf_get by (try rewrite Len'; assumption).
+  unfold bf_get. rewrite Len', EB, EB'.
+  assert (He2 : r_end r2 <= 8 * blen b) by (unfold byte_hi in Hhi2; lia).
+  assert (He : r_end r <= 8 * blen b) by (unfold byte_hi in Hhi; lia).
+  assert (HF : bf_get b r < 2 ^ r_width r) by apply bf_get_lt.
+  assert (HV : v mod 2 ^ r_width r < 2 ^ r_width r) by (apply N.mod_lt, pow2_nz).
+  unfold rng_disjoint in Hd. apply Bool.orb_true_iff in Hd. destruct Hd as [Hd|Hd]; apply N.leb_le in Hd.
+  - (* r2 lies after r: only the low part matters *)
+    rewrite !field_low; try assumption; try reflexivity; unfold r_end, r_width, r_start in *; lia.
+  - (* r2 lies before r: only the high part matters *)
+    rewrite !field_high; try assumption; try reflexivity; unfold r_end, r_width, r_start in *; lia.
 Qed.
